@@ -586,3 +586,36 @@ Definition cdiff_case (c : ccase) : bool :=
 Definition cdiffs (l : list ccase) := bad_idx cdiff_case l.
 Definition cmons (l : list ccase) :=
   mon_idx [cmon_no_hang; cmon_bounded; cmon_quiescent; cmon_delivery; cmon_rejections; cmon_closed] l.
+
+(* ------------------------------------------------------------------ configuration of the real reactor *)
+
+(* The model has ONE capacity: [init n m] gives the token pool and the combined input channel the
+   same capacity [cap] = n, for every n (C12_input_has_room: token holders about to send + buffered
+   items <= n = capacity of the input).  Numbers are binary here: n goes up to 200000. *)
+Definition model_token_cap (n : N) : N := n.
+Definition model_input_cap (n : N) : N := n.
+
+Record kcase := KC {
+  k_n : N;              (* Start(n) *)
+  k_tokcap : N;         (* cap(tokenPool) read back *)
+  k_incap : N;          (* cap(input) read back *)
+  k_fill : bool;        (* n inserts were issued with the output not drained, then one feedback *)
+  k_inserted : N;       (* inserts that returned nil (within the watchdog) *)
+  k_fb : option res }.  (* the feedback's return; None: it did not return / was not reached *)
+
+Definition fill_ok (c : kcase) : bool :=
+  if k_fill c then (k_inserted c =? k_n c)%N && ores_eqb (k_fb c) (Some ROk) else true.
+
+Definition kdiff_case (c : kcase) : bool :=
+  negb ((k_tokcap c =? model_token_cap (k_n c))%N && (k_incap c =? model_input_cap (k_n c))%N && fill_ok c).
+
+(* monitor 0 - the input channel has room for every token holder: capacity(input) >= token count *)
+Definition kmon_input_room (c : kcase) : bool := (k_n c <=? k_incap c)%N.
+(* monitor 1 - never more tokens than configured: capacity(tokenPool) = token count *)
+Definition kmon_token_cap (c : kcase) : bool := (k_tokcap c =? k_n c)%N.
+(* monitor 2 - with nobody reading the output all n inserts return (a token holder's send never
+   blocks), and the feedback of a received seed returns nil (feedback never blocks) *)
+Definition kmon_fill (c : kcase) : bool := fill_ok c.
+
+Definition kdiffs (l : list kcase) := bad_idx kdiff_case l.
+Definition kmons (l : list kcase) := mon_idx [kmon_input_room; kmon_token_cap; kmon_fill] l.
